@@ -834,6 +834,11 @@ func ComparisonExpr(query *Query, current Map, expr *sqlparser.ComparisonExpr, o
 				switch value := value.(type) {
 				case Map:
 					{
+						// a row stands for its only column; with several columns the
+						// one compared would depend on map iteration order
+						if len(value) > 1 {
+							return false, EXPECTATION_FAILED.Extend("failed to build `IN` expreesion. operand should contain 1 column")
+						}
 						for _, value := range value {
 							if v, ok := value.(*float64); ok {
 								value = *v
